@@ -34,6 +34,22 @@ type Case struct {
 	// InspNamed: the layout has an inspection that bears the name of its first / last step and records other
 	// artifacts (the summary reports the steps' artifacts all the same)
 	InspNamed string `json:"inspection_named_like,omitempty"`
+	// Paths: how every link spells its artifact paths ("" = plain names; dot-slash = "./name"; all links and
+	// the rules agree on the spelling, and the summary reports the paths as the links do)
+	Paths string `json:"path_spelling,omitempty"`
+	// LinkNames "rotated": the name FIELD inside every link is that of the following step (the file names,
+	// which decide what a link is counted for, are unchanged)
+	LinkNames string `json:"link_name_fields,omitempty"`
+}
+
+// pathStyle / rotate: set by build from the case
+var pathStyle string
+
+func an(name string) string {
+	if pathStyle == "dot-slash" {
+		return "./" + name
+	}
+	return name
 }
 
 var diffs = []string{"mat-added", "mat-removed", "mat-renamed", "mat-digest", "prod-added", "prod-removed", "prod-renamed", "prod-digest",
@@ -45,11 +61,11 @@ func stepName(i int) string { return fmt.Sprintf("s%d", i+1) }
 
 func baseArts(i int) (m, p map[string]intoto.HashObj) {
 	if i == 0 {
-		m = gen.Arts("src", gen.H(0xa0))
+		m = gen.Arts(an("src"), gen.H(0xa0))
 	} else {
 		_, m = baseArts(i - 1)
 	}
-	p = gen.Arts(fmt.Sprintf("f%d", i+1), gen.H(byte(i+1)), "g", gen.H(0x99))
+	p = gen.Arts(an(fmt.Sprintf("f%d", i+1)), gen.H(byte(i+1)), an("g"), gen.H(0x99))
 	return
 }
 
@@ -112,6 +128,7 @@ type built struct {
 
 func build(base string, cs Case) built {
 	dir := gen.FreshDir(base, "links")
+	pathStyle = cs.Paths
 	keys := map[string]intoto.Key{}
 	var steps []intoto.Step
 	tampered, unauth := gen.Key("ed5"), gen.Key("ed6")
@@ -119,15 +136,19 @@ func build(base string, cs Case) built {
 	for i := 0; i < cs.Steps; i++ {
 		m, p := baseArts(i)
 		name := stepName(i)
+		field := name // the name field inside the links
+		if cs.LinkNames == "rotated" {
+			field = stepName((i + 1) % cs.Steps)
+		}
 		mr := [][]string{{"ALLOW", "*"}}
 		pr := [][]string{{"ALLOW", "*"}}
 		if cs.Strict {
 			if i == 0 {
-				mr = [][]string{{"ALLOW", "src"}, {"DISALLOW", "*"}}
+				mr = [][]string{{"ALLOW", an("src")}, {"DISALLOW", "*"}}
 			} else {
 				mr = [][]string{{"MATCH", "*", "WITH", "PRODUCTS", "FROM", stepName(i - 1)}, {"DISALLOW", "*"}}
 			}
-			pr = [][]string{{"ALLOW", fmt.Sprintf("f%d", i+1)}, {"ALLOW", "g"}, {"DISALLOW", "*"}}
+			pr = [][]string{{"ALLOW", an(fmt.Sprintf("f%d", i+1))}, {"ALLOW", an("g")}, {"DISALLOW", "*"}}
 		}
 		if i != cs.Chosen {
 			k := other
@@ -136,11 +157,11 @@ func build(base string, cs Case) built {
 				k2 := gen.Key("ed8")
 				keys[k2.ID] = k2.Pub
 				steps = append(steps, gen.Step(name, 2, []string{k.ID, k2.ID}, mr, pr))
-				gen.DumpLink(dir, name, k2.ID, gen.MustWrap(gen.Link(name, m, p, "cmd", name, "second"), cs.DSSE, k2.Full))
+				gen.DumpLink(dir, name, k2.ID, gen.MustWrap(gen.Link(field, m, p, "cmd", name, "second"), cs.DSSE, k2.Full))
 			} else {
 				steps = append(steps, gen.Step(name, 1, []string{k.ID}, mr, pr))
 			}
-			gen.DumpLink(dir, name, k.ID, gen.MustWrap(gen.Link(name, m, p, "cmd", name), cs.DSSE, k.Full))
+			gen.DumpLink(dir, name, k.ID, gen.MustWrap(gen.Link(field, m, p, "cmd", name), cs.DSSE, k.Full))
 			continue
 		}
 		var pub []string
@@ -158,7 +179,7 @@ func build(base string, cs Case) built {
 			}
 			k := gen.Key(funcs[j])
 			// counted links legitimately differ in command and by-products
-			l := gen.Link(name, lm, lp, "cmd", name, fmt.Sprint(j))
+			l := gen.Link(field, lm, lp, "cmd", name, fmt.Sprint(j))
 			l.ByProducts = map[string]interface{}{"stdout": fmt.Sprintf("out-%d", j), "return-value": float64(0)}
 			gen.DumpLink(dir, name, k.ID, gen.MustWrap(l, cs.DSSE, k.Full))
 		}
@@ -206,6 +227,7 @@ func build(base string, cs Case) built {
 	}
 	l := gen.Layout(gen.FarFuture, steps, insp, keys)
 	b := built{md: gen.MustWrap(l, cs.DSSE, owner.Full), keys: map[string]intoto.Key{owner.ID: owner.Pub}, linkDir: dir}
+	pathStyle = cs.Paths
 	b.wantM, _ = baseArts(0)
 	_, b.wantP = baseArts(cs.Steps - 1)
 	return b
@@ -335,7 +357,11 @@ func run(c *mcx.Ctx) {
 						}
 						if steps > 1 && extra == 0 {
 							do(Case{Steps: steps, Chosen: chosen, Threshold: k, Extra: extra, Name: "x", DSSE: dsse, Strict: true, OthersMulti: true})
+							do(Case{Steps: steps, Chosen: chosen, Threshold: k, Extra: extra, Name: "x", DSSE: dsse, Strict: true, OthersMulti: true, LinkNames: "rotated"})
+							do(Case{Steps: steps, Chosen: chosen, Threshold: k, Extra: extra, Name: "x", DSSE: dsse, Strict: true, LinkNames: "rotated"})
 						}
+						do(Case{Steps: steps, Chosen: chosen, Threshold: k, Extra: extra, Name: "x", DSSE: dsse, Strict: true, Paths: "dot-slash"})
+						do(Case{Steps: steps, Chosen: chosen, Threshold: k, Extra: extra, Name: "x", DSSE: dsse, Strict: false, Paths: "dot-slash", OthersMulti: steps > 1})
 						if extra == 0 && k <= 2 {
 							for _, in := range []string{"first", "last"} {
 								do(Case{Steps: steps, Chosen: chosen, Threshold: k, Extra: extra, Name: "x", DSSE: dsse, Strict: true, InspNamed: in})
@@ -350,6 +376,12 @@ func run(c *mcx.Ctx) {
 									continue // quick: first, second and last link
 								}
 								do(Case{Steps: steps, Chosen: chosen, Threshold: k, Extra: extra, Diff: d, DiffOn: j, DSSE: dsse, Strict: steps%2 == 0})
+								if extra == 0 && (d == "prod-digest" || d == "mat-added") {
+									do(Case{Steps: steps, Chosen: chosen, Threshold: k, Extra: extra, Diff: d, DiffOn: j, DSSE: dsse, Strict: steps%2 == 0, Paths: "dot-slash"})
+									if steps > 1 {
+										do(Case{Steps: steps, Chosen: chosen, Threshold: k, Extra: extra, Diff: d, DiffOn: j, DSSE: dsse, Strict: steps%2 == 0, OthersMulti: true, LinkNames: "rotated"})
+									}
+								}
 								if steps > 1 && extra == 0 && (d == "prod-digest" || d == "mat-added") {
 									do(Case{Steps: steps, Chosen: chosen, Threshold: k, Extra: extra, Diff: d, DiffOn: j, DSSE: dsse, Strict: steps%2 == 0, OthersMulti: true})
 								}
